@@ -9,6 +9,7 @@ import Csvq.Model.Pipeline
 import Csvq.Gen.PipeFacts
 import Csvq.Ref.PipeFacts
 import Csvq.Props.C12
+import Csvq.Lemmas.Shift
 namespace Csvq.C12
 open Csvq Csvq.Pipeline
 
@@ -80,6 +81,58 @@ theorem filter_eval_keeps_order (cuts : Nat → Cut) (p : R → Bool) (f : R →
     runImpl (κ := κ) cuts 0 [.filter p, .eval f] rows = (rows.filter p).map f := by
   rw [pipeline_eq_spec]; rfl
 
+/-! ## OFFSET / LIMIT -/
+
+/-- WHERE p … LIMIT k OFFSET n, whatever the cuts: the rows that pass, without the first `n`, at most `k` of them —
+    `rows[n : n + k]` of the filtered table, which is what the harness computes from the generated table -/
+theorem pipeline_offset_limit_spec (cuts : Nat → Cut) (p : R → Bool) (n k : Nat) (rows : List R) :
+    runImpl (κ := κ) cuts 0 [.filter p, offsetStage n, limitStage k] rows = ((rows.filter p).drop n).take k := by
+  rw [pipeline_eq_spec]; rfl
+
+/-- OFFSET alone on a single-source query keeps the source order: row `i` of the result is row `i + n` of the table -/
+theorem offset_keeps_order (cuts : Nat → Cut) (n i : Nat) (rows : List R) :
+    (runImpl (κ := κ) cuts 0 [offsetStage n] rows)[i]? = rows[i + n]? := by
+  rw [pipeline_eq_spec]; simp [runSpec, stageSpec, offsetStage, Nat.add_comm]
+
+/-- the code under the OFFSET stage is the in-place loop of Model/Shift — three statements, the last one a plain
+    ascending `for … range` with one assignment; REGENERATED from View.Offset on every run -/
+theorem gen_offset_shift_is_ascending_loop :
+    Gen.offsetShift = ["newSet := view.RecordSet[view.offset:]", "view.RecordSet = view.RecordSet[:len(newSet)]",
+                       "for i := range newSet { view.RecordSet[i] = newSet[i] }"] := by decide
+
+/-- ONE worker, ascending: the in-place writes `a[i] := a[i + off]` leave exactly `drop off` — the OFFSET stage -/
+theorem shift_sequential_spec {α : Type} (off : Nat) (a : List α) :
+    Shift.result off a (Shift.sequential off a) = a.drop off := by
+  unfold Shift.result Shift.sequential
+  by_cases h : off ≤ a.length
+  · rw [Shift.run_range_after off a (a.length - off) (by omega)]
+    unfold Shift.after
+    have : ((a.drop off).take (a.length - off)).length = a.length - off := by simp
+    rw [List.take_append_of_le_length (by omega), List.take_take, Nat.min_self]
+    exact List.take_of_length_le (by simp)
+  · have h0 : a.length - off = 0 := by omega
+    rw [h0]; simp; omega
+
+/-- the OFFSET stage of the pipeline IS that loop run by one worker -/
+theorem offset_stage_eq_sequential_shift (n : Nat) (rows : List R) :
+    stageSpec (κ := κ) (offsetStage n) rows = Shift.result n rows (Shift.sequential n rows) := by
+  rw [shift_sequential_spec]; rfl
+
+/-- WHY IT MUST STAY SEQUENTIAL: two workers over the chunks [0,1] and [2] of the three writes of OFFSET 1 on four
+    rows; when the second worker's write lands first, the first worker reads the slot it has already overwritten —
+    row 2 is lost, row 3 appears twice, the row count is right.  (No cut-independence theorem can hold for a
+    parallel shift; `gen_offset_shift_is_ascending_loop` and `gen_stage_shapes` keep the code on the sequential side.) -/
+theorem shift_two_workers_counterexample :
+    Shift.interleaves [2, 0, 1] [[0, 1], [2]] = true
+    ∧ Shift.result 1 [10, 11, 12, 13] [2, 0, 1] = [11, 13, 13]
+    ∧ Shift.result 1 [10, 11, 12, 13] (Shift.sequential 1 [10, 11, 12, 13]) = [11, 12, 13]
+    ∧ ([10, 11, 12, 13] : List Nat).drop 1 = [11, 12, 13] := by decide
+
+/-- … while the same two chunks run one after the other, in worker order, are the sequential schedule -/
+theorem shift_chunks_in_order_ok :
+    Shift.interleaves [0, 1, 2] [[0, 1], [2]] = true
+    ∧ Shift.result 1 [10, 11, 12, 13] [0, 1, 2] = [11, 12, 13] := by decide
+
 /-! ## non-vacuity: real cuts, a real query -/
 
 /-- WHERE x ≠ 3, GROUP BY x % 2 with SUM, ORDER BY descending: one worker, two workers cut after 2 rows, chunks of 2 -/
@@ -90,5 +143,11 @@ example :
     ∧ runImpl (fun i => if i = 1 then Cut.at 2 else Cut.every 1) 0 q [1, 2, 3, 4, 5, 6] = [12, 6] := by decide
 
 example : (Cut.every 1).cut [1, 2, 3, 4, 5] = [[1, 2], [3, 4], [5]] := by decide
+
+/-- WHERE x ≠ 3 … LIMIT 2 OFFSET 1, LIMIT 50 PERCENT after OFFSET 2, LIMIT 2 WITH TIES on x / 10 -/
+example :
+    runImpl (κ := Nat) (fun _ => Cut.every 1) 0 [.filter (· != 3), offsetStage 1, limitStage 2] [1, 2, 3, 4, 5, 6] = [2, 4]
+    ∧ runImpl (κ := Nat) (fun _ => Cut.at 2) 0 [offsetStage 2, limitPercentStage 50 2] [1, 2, 3, 4, 5, 6] = [3, 4, 5]
+    ∧ runImpl (κ := Nat) (fun _ => Cut.one) 0 [limitTiesStage (· / 10) 2] [1, 12, 13, 15, 27] = [1, 12, 13, 15] := by decide
 
 end Csvq.C12
